@@ -136,6 +136,24 @@ class _SpanMixin(SpanProcessor):
         return None
 
 
+class Utf8StreamLogger(TracepointLogger):
+    """A tracepoint logger as an application would write it: one UTF-8 encoded line per message (so it fails, as a
+    file or socket stream would, on text that cannot be encoded)."""
+
+    def __init__(self, config=None):
+        super().__init__('Utf8StreamLogger', config)
+        self.lines = []
+        self.rejected = 0
+
+    def log_tracepoint(self, log_msg, tp_id, ctx_id):
+        _rec(self.name, 'log', {'msg': log_msg, 'tp_id': tp_id, 'ctx_id': ctx_id})
+        try:
+            self.lines.append(('%s %s %s\n' % (tp_id, ctx_id, log_msg)).encode('utf-8'))
+        except UnicodeEncodeError:
+            self.rejected += 1
+            raise
+
+
 _KINDS = {'res': _ResMixin, 'dec': _DecMixin, 'log': _LogMixin, 'met': _MetMixin, 'span': _SpanMixin}
 
 
